@@ -990,7 +990,11 @@ def expand_unmarshal(lines, outs, rng, tier):
         op = "wk_um" if t[0] == "wk_m" else "lq_um"
         b = bytes.fromhex(hexb) if hexb != "-" else b""
         extra.append("%s %s %s 1 %s" % (op, ty, comp, hexb)); extra.append("%s %s %s 0 %s" % (op, ty, comp, hexb))
-        if op == "lq_um" and ty == "msk": continue
+        if op == "lq_um" and ty == "msk":
+            # MasterKey::unmarshal validates nothing: every 32-byte string is a key (also scalars >= r)
+            for v in (R, R - 1, R + 1, (1 << 256) - 1, 0):
+                extra.append("%s %s %s %d %s" % (op, ty, comp, rng.randrange(2), v.to_bytes(32, "little").hex()))
+            continue
         step = 40 if tier != "thorough" else 12
         poss = sorted(set([0, 1, len(b) - 1] + list(range(2, len(b), step)) + [rng.randrange(len(b)) for _ in range(4)]))
         for pos in poss:
